@@ -512,6 +512,17 @@ def main(ctx):
             ctx.check({'ops': [['new', 'sysex', {'data': big_bad2}, entry]], 'grid_edge': True}, sample=False)
         ctx.check({'ops': [['new', 'sysex', {'data': big_ok}, 'ctor'], ['set', 'data', big_bad], ['copy', {'data': big_bad2}, True],
                            ['iadd', big_bad], ['redict']], 'grid_edge': True}, sample=False)
+    # ... and long payloads whose single bad element is ill-typed but numerically in range (any length, any position)
+    for n in (257, 300, 1000, 70000):
+        for bad in (T('float', 5.0), T('fraction', [5, 1]), T('float', 0.5)):
+            for pos in (0, n // 2, n - 1):
+                data = [(i * 3) % 128 for i in range(n)]
+                data[pos] = bad
+                for entry in (('ctor', 'from_dict') if n < 70000 else ('ctor',)):
+                    ctx.check({'ops': [['new', 'sysex', {'data': data}, entry]], 'grid_edge': True}, sample=False)
+                if n == 300:
+                    ctx.check({'ops': [['new', 'sysex', {'data': [1]}, 'ctor'], ['set', 'data', data], ['copy', {'data': data}, True],
+                                       ['iadd', data], ['redict']], 'grid_edge': True}, sample=False)
     for tval in (0x90, 0xB0, 0xF0, 0xF8, 0x80, T('float', 144.0), 0, 1, None, T('tuple', ['note_on']), ['note_on'], 'Note_On', ''):
         ctx.check({'ops': [['newtype', tval, 'ctor']], 'grid_edge': True}, sample=False)
         ctx.check({'ops': [['newtype', tval, 'from_dict']], 'grid_edge': True}, sample=False)
